@@ -25,6 +25,14 @@ for m in repo.modules.values():
         continue
     for name in m.globals:
         consts.append("%s.%s" % (m.stem, name))
-out = {"_comment": "names only; see tools/gen_known_symbols.py and DESIGN.md 3.1 (E12)", "functions": funcs, "constants": sorted(set(consts))}
+locs = {}
+for q, f in repo.funcs.items():
+    if f.file.startswith("osaca/data/"):
+        continue
+    names = {n.id for n in ast.walk(f.node) if isinstance(n, ast.Name) and isinstance(n.ctx, (ast.Store, ast.Del))}
+    names |= {a.arg for a in ast.walk(f.node) if isinstance(a, ast.arg)}
+    locs[q] = sorted(names)
+out = {"_comment": "names only; see tools/gen_known_symbols.py and DESIGN.md 3.1 (E12)", "functions": funcs, "constants": sorted(set(consts)),
+       "locals": locs}
 (VERIF / "spec" / "known_symbols.json").write_text(json.dumps(out, indent=1) + "\n")
 print(len(funcs), "functions,", len(out["constants"]), "constants")
